@@ -1653,6 +1653,18 @@ class CodeGenerator(NodeVisitor):
         self.enter_frame(block_frame)
         self.buffer(block_frame)
         self.blockvisit(node.body, block_frame)
+
+        # Like in visit_Assign, ``a.b`` is only valid on a Namespace object.
+        if isinstance(node.target, nodes.NSRef):
+            ref = frame.symbols.ref(node.target.name)
+            self.writeline(f"if not isinstance({ref}, Namespace):")
+            self.indent()
+            self.writeline(
+                "raise TemplateRuntimeError"
+                '("cannot assign attribute on non-namespace object")'
+            )
+            self.outdent()
+
         self.newline(node)
         self.visit(node.target, frame)
         if node.filter is not None:
